@@ -97,6 +97,7 @@ def gen_spec(r: apigen.Rng, idx: int, nlro=None, layout=None):
         spec = gen_spec_flat(r, idx, nlro)
     else:
         spec = gen_spec_split(r, idx, nlro, layout)
+    reserve_stems(r, spec)
     spec["sharing"] = share_types(r, [m for m in spec["methods"] if m["kind"] == "lro"])
     if layout == "flat":
         lros = [m for m in spec["methods"] if m["kind"] == "lro"]
@@ -106,6 +107,28 @@ def gen_spec(r: apigen.Rng, idx: int, nlro=None, layout=None):
             spec["svc2"] = gen_second_service(r, spec)
     spec["service_yaml"] = gen_yaml(r, spec["pkg"]) if r.maybe(0.45) else None
     return spec
+
+
+# base names API.build must rename (`<name>_.proto`): every client method has parameters `request`, `retry`, `timeout`, `metadata`
+# (a types module of that name would be shadowed inside the method that builds the future), Python keywords cannot be imported,
+# `__init__` is the types package's own module
+RESERVED_STEMS = ["metadata", "metadata", "retry", "timeout", "request", "import", "class", "from", "lambda", "global", "__init__", "metadata"]
+
+
+def reserve_stems(r, spec, p=0.4):
+    """40% of the APIs: one or two of the target files that define the LRO response/metadata types (imported by the service's file
+    or not, in the API package's directory or a sub-package's) — sometimes the service's own file — are called `metadata.proto`,
+    `retry.proto`, `timeout.proto`, `request.proto`, `<keyword>.proto` or `__init__.proto`; every file has a directory component"""
+    if not r.maybe(p):
+        return
+    roles = r.pick([["unimp"], ["imp"], ["unimp", "imp"], ["imp", "unimp"], ["unimp"], ["svc"], ["svc", "unimp"]])
+    for role in roles:
+        taken = {fpath(spec, x) for x in ROLES if x != role}
+        for _ in range(8):
+            spec["files"][role]["stem"] = r.pick(RESERVED_STEMS)
+            if fpath(spec, role) not in taken:
+                break
+    spec["reserved_stems"] = {role: spec["files"][role]["stem"] for role in roles}
 
 
 def share_types(r, lros):
@@ -952,6 +975,13 @@ def _run_spec(ctx, r, spec, label, files, req, transports):
     for m in lros:
         ctx.count("response_case", m["response"]["case"]); ctx.count("metadata_case", m["metadata"]["case"])
     ctx.count("file_order", ",".join(spec["order"]))
+    for role in ROLES:
+        if spec["files"][role]["stem"] in RESERVED_STEMS:
+            ctx.count("reserved_file_name", f"{role}:{spec['files'][role]['stem']}:" + ("api-dir" if fpkg(spec, role) == spec["pkg"] else "sub-package-dir"))
+            for m in lros:
+                for k in ("response", "metadata"):
+                    if m[k]["target"] in {f"{fpkg(spec, role)}.{x}" for x in spec["files"][role]["msgs"]} | {f"{fpkg(spec, role)}." + ".".join(x) for x in spec["files"][role]["nested"]}:
+                        ctx.count("lro_type_in_reserved_file", f"{k}:{role}:{spec['files'][role]['stem']}")
     ctx.count("layout", spec.get("layout", "flat") + ":" + ",".join(fpkg(spec, role)[len(spec["pkg"]):] or "." for role in ROLES))
     ctx.count("service_yaml", json.dumps(spec.get("service_yaml"), sort_keys=True))
     # ---- model: generation outcome per method
@@ -1526,7 +1556,9 @@ def run(ctx):
                 "one service in the API package and one in a sub-package (either is the fully exercised one; 20%: sibling sub-packages, nothing in the API package); 13% "
                 "`msgs-in-sub` = the service in the API package, its request / plain response / LRO messages in a sub-package; shadowed short names across the packages, "
                 "same file stem in two packages; all of them on gRPC, asyncio gRPC and REST with the same histories, programs and service configs; LRO methods share response/metadata types in every combination (same response, same metadata, "
-                "both, crossed, one's response = another's metadata, chains); rpcs named Operation/OperationAsync and files operation(_async).proto (module alias); "
+                "both, crossed, one's response = another's metadata, chains); rpcs named Operation/OperationAsync and files operation(_async).proto (module alias); 40% of the APIs call one or two of the files that "
+                "define the LRO types (imported or not, API directory or sub-package directory; sometimes the service's own file) metadata|retry|timeout|request|"
+                "<keyword>|__init__.proto (API.build must rename them: the method's own parameters would shadow the types module where the future is built); "
                 "a second service in the un-imported file (0..2 LROs, sometimes none: no operations client); service-config http rules for Operations "
                 "(Get/Cancel/Delete/List/WaitOperation with 0..3 additional bindings over the collections shelves | archives | projects/locations | organizations, "
                 "catch-all and suffix forms, duplicate selectors, rule order, other services' rules, mixin); operation NAMES instantiate the primary, a middle and the last "
